@@ -1070,6 +1070,24 @@ class SymEx:
                     out.append(m_)
         return ('list', tuple(out)) if out else v
 
+    def _enum_members_dict(self, c_):
+        """every NAME of the enumeration in definition order, aliases included, with the member it denotes (Class.__members__, Class[name])"""
+        items_ = []
+        for n0, e0 in c_.class_attrs.items():
+            if n0.startswith('_') or c_.lookup(n0) is not None:
+                continue
+            self.frames.append(self.M.module_func(c_.mod))
+            try:
+                r0 = self.ev(e0, State())
+            except Undecided:
+                r0 = []
+            finally:
+                self.frames.pop()
+            if len(r0) != 1 or r0[0][1][0] not in ('num', 'str', 'tuple'):
+                return None
+            items_.append((('str', n0), self._enum_member(c_, n0, r0[0][1], e0)))
+        return ('dict', tuple(items_)) if items_ else None
+
     def _enum_member(self, c_, name, lit, node):
         """the member NAME = value of a plain Enum: a record (name, value) - plus the attributes a class-defined __init__(self, *value) assigns from the value"""
         # Enum semantics: a name bound to a value an earlier name already has is an ALIAS - Class.LATER is the earlier member itself
@@ -1784,6 +1802,13 @@ class SymEx:
             out = []
             for x, vs in self.seq([e.value, e.slice], st):
                 b, i = vs
+                if x.exc is None and b[0] == 'var' and b[1].startswith('class:') and isinstance(e.ctx, ast.Load) and not self.suppress:
+                    # EnumClass[name]: the member of that name
+                    ec_ = self.M.cls(b[1][6:])
+                    if ec_ is not None and any(bn.split('.')[-1] == 'Enum' for k_ in ec_.mro() for bn in k_.base_names):
+                        md_ = self._enum_members_dict(ec_)
+                        if md_ is not None:
+                            b = md_
                 if x.exc is None and b == ('dict', ()) and isinstance(e.ctx, ast.Load) and not self.in_comp and not self.suppress and self.try_lookup:
                     # nothing is in an empty dict
                     self._modelled_lookups = getattr(self, '_modelled_lookups', 0) + 1
@@ -2162,24 +2187,9 @@ class SymEx:
                             out.append((x, self._enum_member(c_, e.attr, lit, c_.class_attrs[e.attr])))
                         continue
                 if c_ is not None and e.attr == '__members__' and any(bn.split('.')[-1] == 'Enum' for k_ in c_.mro() for bn in k_.base_names):
-                    # every NAME of the enumeration in definition order, aliases included, with the member it denotes
-                    items_ = []
-                    for n0, e0 in c_.class_attrs.items():
-                        if n0.startswith('_') or c_.lookup(n0) is not None:
-                            continue
-                        self.frames.append(self.M.module_func(c_.mod))
-                        try:
-                            r0 = self.ev(e0, State())
-                        except Undecided:
-                            r0 = []
-                        finally:
-                            self.frames.pop()
-                        if len(r0) != 1 or r0[0][1][0] not in ('num', 'str', 'tuple'):
-                            items_ = None
-                            break
-                        items_.append((('str', n0), self._enum_member(c_, n0, r0[0][1], e0)))
-                    if items_:
-                        out.append((x, ('dict', tuple(items_))))
+                    md_ = self._enum_members_dict(c_)
+                    if md_ is not None:
+                        out.append((x, md_))
                         continue
                 m_ = c_.lookup(e.attr) if c_ is not None else None
                 if m_ is not None and not m_.is_property:
@@ -3538,6 +3548,10 @@ def _canon_ext_call(name, args, kws):
         v = round(float(args[0][1]), int(args[1][1])) if len(args) == 2 else round(float(args[0][1]))
         if Fraction(str(v)) == args[0][1] or args[0][1].denominator == 1:
             return 'IDENTITY', [num(v)], ()
+    if name == 'ROUND' and len(args) == 2 and args[1] == NONE and not kws:
+        return 'ROUND', list(args[:1]), ()          # round(x, None) is round(x)
+    if name == 'ROUND' and len(args) == 1 and dict(kws).get('ndigits') == NONE and len(kws) == 1:
+        return 'ROUND', list(args), ()
     if name in ('ISCLOSE', 'MISCLOSE') and len(args) == 2 and args[1] == ZERO:
         k = dict(kws)
         dflt = ('num', Fraction('1e-08'))
